@@ -235,6 +235,11 @@ func (r *aggregatorRole) ProcessTemplates(workflowRepo repos.IRepo, loadSubworkf
 		r.Enabled = "false"
 	}
 
+	// A role without critical descendants has no opinion on the state of the workflow
+	if !r.IsCritical() {
+		r.state = SafeState{state: sm.INVARIANT}
+	}
+
 	return
 }
 
